@@ -362,7 +362,7 @@ class VmControlData(TlbScheme):
     def serialize(cls, value: "VmControlData") -> Cell:
         builder = Builder()
 
-        if value.nargs:
+        if getattr(value, 'nargs', None) is not None:  # nargs = 0 is a value, not "nothing"
             builder.store_bit_int(1)
             builder.store_uint(value.nargs, 13)
         else:
@@ -376,7 +376,7 @@ class VmControlData(TlbScheme):
 
         builder.store_cell(VmSaveList.serialize(value.save))
 
-        if value.cp:
+        if getattr(value, 'cp', None) is not None:  # cp = 0 is a value, not "nothing"
             builder.store_bit_int(1)
             builder.store_int(value.cp, 16)
         else:
